@@ -85,6 +85,16 @@ class GMEEngine(engines.HistEngine):
     }
 
 
+    def build_driver(self, force=False):
+        # the driver also links engine B's extracted model: rebuild when coq/ME changes too
+        import os, glob
+        binp = self.driver_path()
+        me_srcs = glob.glob(os.path.join(engines.C.COQ, "ME", "*.v"))
+        if os.path.exists(binp) and any(os.path.getmtime(f) > os.path.getmtime(binp) for f in me_srcs):
+            force = True
+        return engines.HistEngine.build_driver(self, force=force)
+
+
 ENGINE = GMEEngine()
 
 _COMMON = [
@@ -98,8 +108,9 @@ _COMMON = [
     "variables of another package and cannot be replaced from package grpcgcp), so timer behaviour inside GCPMultiEndpoint "
     "rests on engine B's correspondence alone",
     "map iteration order: the order of dials is read from the dial log (oracle); the order of the status-sync loop and of "
-    "the MultiEndpoint loop is fixed in the model - proved irrelevant for the statuses (update_status_synced) and, with "
-    "zero delays, for Current()",
+    "the MultiEndpoint loop is fixed in the model - proved irrelevant for the endpoint statuses (update_status_synced holds "
+    "for the model's order and the statuses it establishes do not depend on it); for Current() with zero delays the "
+    "independence is not proved, it is checked by the acceptor on every recorded trace",
     "a pool's connectivity is READY / not READY; a change is delivered to every MultiEndpoint atomically (one P event): the "
     "harness serialises connectivity changes (a new pool may only connect after the update that created it was recorded)",
     "'follows within bounded time' and the goroutine census are sampled runtime observations (polling, bounds 3 s / 250 ms, "
